@@ -19,7 +19,10 @@ RULE = ("random resolver problems: a source SimpleTree and a livefs SimpleTree o
         "the installed set by the reference and the final set is judged: every target matched, every dependency clause of every "
         "merged package satisfied, <=1 member per (name, slot), no member matched by a blocker of a merged package; any exception "
         "from construction/resolution is a crash.  A case is non-trivial when the resolver reported success and the plan merges "
-        "a package that has at least one dependency clause, or replaces an installed package; distinct = (problem, resolver kind).")
+        "a package that has at least one dependency clause, or replaces an installed package; distinct = (problem, resolver kind).  "
+        "Every fifth problem comes from a directed-but-random family: one package installed in 2-3 slots at once, newer "
+        "versions in the repository, and a target (or a package it pulls in) that depends on one slot and carries a weak or "
+        "strong version-bounded blocker matching installed members of several slots.")
 ASSUMPTIONS = [
     "resolver failures (add_atoms returns a failure stack) are not judged; the statement only constrains reported successes",
     "atom matching and version order in the oracle come from vt/ref/c15_plan.py + vt/ref/pms_version.py (PMS), not from pkgcore",
@@ -312,7 +315,11 @@ def run(ctx):
     runner = Runner(ctx)
     n = ctx.budget(140, 2500)
     for i in range(n):
-        problem = gp.gen_problem(ctx.rng)
+        if i % 5 == 4:
+            problem = gp.gen_multislot_blocker_problem(ctx.rng)
+            ctx.count("problems_multislot_blocker")
+        else:
+            problem = gp.gen_problem(ctx.rng)
         ctx.count("problems")
         for kind in hz.KINDS:
             runner.check(problem, kind)
